@@ -18,7 +18,7 @@ type intrinsicFn func(e *Engine, st *State, fn *ssa.Function, args []Value, site
 var intrinsics map[string]intrinsicFn
 
 func init() {
-	intrinsics = map[string]intrinsicFn{
+	base := map[string]intrinsicFn{
 		"fmt.Errorf":   inFmtErrorf,
 		"fmt.Sprintf":  inFmtSprintf,
 		"fmt.Sprint":   inFmtSprint,
@@ -80,6 +80,12 @@ func init() {
 		"(*strings.Builder).String":    inBuilderString,
 		"(*strings.Builder).copyCheck": inNoop,
 		"strconv.FormatBool": inFormatBool,
+	}
+	if intrinsics == nil {
+		intrinsics = map[string]intrinsicFn{}
+	}
+	for k, v := range base {
+		intrinsics[k] = v
 	}
 }
 
